@@ -1,15 +1,15 @@
-\* candidate + terminal schedules for Close racing gets (BFS, VIEW hides the history); 12,036 distinct states, 748 schedules
-\* (checks/C24.py generates the configurations it runs from the same templates; measured sizes in DESIGN.md 5/C24 and evidence/C24.json)
+\* candidate + terminal schedules, 3 clients x 1 round with a scale-in tick (BFS, VIEW hides the history); 23,469 distinct states, 277 schedules
+\* (checks/C24.py generates the configurations it runs from the same templates; measured sizes are in evidence/C24.json)
 SPECIFICATION GenSpec
 CONSTANTS
-  Clients = {"c1","c2"}
+  Clients = {"c1","c2","c3"}
   MaxCap = 2
   InitCap = 1
-  Rounds = 2
+  Rounds = 1
   Sweeps = 0
-  Ticks = 0
+  Ticks = 1
   SetCapTo = 0
-  WithClose = TRUE
+  WithClose = FALSE
   FactoryFails = FALSE
   PutNil = FALSE
   Timeouts = FALSE
